@@ -1650,6 +1650,36 @@ impl VirtualFileSystem for Memfs {
         let dst_root = self._abs(&guard, dst)?;
         let copy_into = self._is_dir(&guard, &dst_root);
 
+        // Validate everything up front so that a failed move leaves the filesystem untouched
+        if !guard.contains_entry(&src_root) {
+            return Err(PathError::does_not_exist(src_root).into());
+        }
+        let target = if copy_into { dst_root.mash(src_root.base()?) } else { dst_root.clone() };
+        if target == src_root {
+            return Ok(());
+        }
+        if target.starts_with(&src_root) {
+            return Err(format!("can't move {} into itself {}", src_root.display(), target.display()).as_str().into());
+        }
+        let target_dir = target.dir()?;
+        match guard.get_entry(&target_dir) {
+            Some(x) if x.is_dir() => {},
+            Some(_) => return Err(PathError::is_not_dir(target_dir).into()),
+            None => return Err(PathError::parent_not_found(target_dir).into()),
+        }
+        let src_is_dir = guard.get_entry(&src_root).map(|x| x.is_dir() && !x.is_symlink()).unwrap_or(false);
+        if let Some(x) = guard.get_entry(&target) {
+            if x.is_dir() && !x.is_symlink() {
+                return Err(PathError::exists_already(target).into());
+            } else if src_is_dir {
+                return Err(PathError::is_not_dir(target).into());
+            }
+
+            // Replace the destination file or link
+            guard.remove_file(&target);
+            guard.remove_entry(&target);
+        }
+
         let mut paths = vec![src_root.clone()];
         while let Some(src_path) = paths.pop() {
             let dst_path = if copy_into {
